@@ -296,6 +296,23 @@ class CFG:
                 return False
             v = ip[v]
 
+    def branch_cond(self, b):
+        """the expression whose value decides a two-way branch at the end of block b:
+        the last evaluated element (clang's CFGBlock::getLastCondition), so for
+        `if (a && b)` the block that evaluates b is decided by b, not by `a && b`"""
+        blk = self.blocks[b]
+        if len(blk['succ']) != 2 or blk.get('termk') in ('SwitchStmt', None):
+            return None
+        if blk.get('termk') in ('CXXTryStmt', 'GotoStmt', 'IndirectGotoStmt'):
+            return None
+        if blk['el']:
+            n = self.fn.nodes.get(blk['el'][-1])
+            if n is not None and n['k'] not in ('DeclStmt',):
+                return n
+        if blk.get('cond', -1) is not None and blk.get('cond', -1) >= 0:
+            return self.fn.nodes.get(blk['cond'])
+        return None
+
     def guards(self, n):
         """branch edges dominating node n: list of (cond node, branch index k,
         terminator kind, block id); k=0 is the true/first edge"""
@@ -306,8 +323,9 @@ class CFG:
         for v in self.dominators(('b', p[0])):
             if v[0] == 'e':
                 b = self.blocks[v[1]]
-                if len(self.succ[v[1]]) + sum(1 for s in b['succ'] if s is None) >= 2 and b.get('cond', -1) >= 0:
-                    out.append((self.fn.nodes.get(b['cond']), v[2], b.get('termk'), v[1]))
+                bc = self.branch_cond(v[1])
+                if bc is not None:
+                    out.append((bc, v[2], b.get('termk'), v[1]))
         return out
 
     def reachable_blocks(self):
